@@ -70,39 +70,43 @@ func VH_C02() {
 func VH_C02_ManyFiles() {
 	logger.SetLogger(vlog{})
 	n := vf.Param("N", 12)
+	tg := "C02.many"
+	if vf.Param("C09", 0) == 1 {
+		tg = "C09.many" // the same scenario decides C09's "handles rebuilt by recovery" clause
+	}
 	cfg := Config{SkipListMaxLevel: 2, SkipListP: 0.5, MemtableByteThreshold: 1, ImmutableBuffer: 1, DataBlockByteThreshold: 1,
 		L0TargetNum: vf.Param("L0T", 12), LevelRatio: 10}
 	dir := vf.Dir()
 	db, err := Open(dir, cfg)
-	vf.Assert("C02.many.open", err == nil)
+	vf.Assert(tg+".open", err == nil)
 	mo := newVModel()
 	var keys []string
 	put := func(i int) {
 		k := "key" + string(rune('a'+i))
 		v := []byte{vf.Byte("mv" + string(rune('a'+i)))}
 		keys = append(keys, k)
-		vf.Assert("C02.many.commit", db.Update(func(txn *Txn) error { return txn.Set(k, v) }) == nil)
+		vf.Assert(tg+".commit", db.Update(func(txn *Txn) error { return txn.Set(k, v) }) == nil)
 		mo.set(k, v)
 		vDrain(db)
 	}
 	for i := 0; i < n; i++ {
 		put(i)
 	}
-	mo.check(db, "C02.many.before", keys)
+	mo.check(db, tg+".before", keys)
 	db.Close()
 	db, err = Open(dir, cfg)
-	vf.Assert("C02.many.reopen", err == nil)
-	mo.check(db, "C02.many.reopened", keys)
+	vf.Assert(tg+".reopen", err == nil)
+	mo.check(db, tg+".reopened", keys)
 	put(n)     // a further flush into the level that holds idx >= 10
 	put(n + 1) // and one that triggers the compaction
-	mo.check(db, "C02.many.after", keys)
+	mo.check(db, tg+".after", keys)
 	l0, deeper := vfiles(db)
-	vf.ObsInt("C02.many.l0", l0)
-	vf.ObsInt("C02.many.deeper", deeper)
+	vf.ObsInt(tg+".l0", l0)
+	vf.ObsInt(tg+".deeper", deeper)
 	db.Close()
 	db, err = Open(dir, cfg)
-	vf.Assert("C02.many.reopen2", err == nil)
-	mo.check(db, "C02.many.reopened2", keys)
+	vf.Assert(tg+".reopen2", err == nil)
+	mo.check(db, tg+".reopened2", keys)
 	db.Close()
-	vf.Cover("C02.many.end")
+	vf.Cover(tg+".end")
 }
